@@ -17,5 +17,5 @@ Definition G_ARCHIVE_OK : Z := (0)%Z.
 Definition G_ARCHIVE_EOF : Z := (1)%Z.
 Definition G_ARCHIVE_FAILED : Z := (-25)%Z.
 (* does `case '['` of pm() / pm_w() return 0 at the end of the subject before trying the class? *)
-Definition class_guard : bool := false.
-Definition class_guard_w : bool := false.
+Definition class_guard : bool := true.
+Definition class_guard_w : bool := true.
